@@ -26,6 +26,7 @@ func genC11(seed uint64, tier string, idx int) *Plan {
 	}
 	nconn := 3 + g.r.intn(6)
 	var prevOfKey = map[int]string{} // last connection actor using a key
+	killedOfKey := map[int]int{}     // key -> connection (index+1) the server will drop because of a corrupt frame
 	for c := 0; c < nconn; c++ {
 		ki := g.r.intn(nkeys)
 		ci := g.addConn("service", keys[ki].v19, keys[ki].phone)
@@ -36,7 +37,11 @@ func genC11(seed uint64, tier string, idx int) *Plan {
 		if prev, ok := prevOfKey[ki]; ok && g.r.chance(60) {
 			dial.After = &Dep{Actor: prev, N: 1 + g.r.intn(3)}
 		}
-		if g.r.chance(40) {
+		if kc := killedOfKey[ki]; kc > 0 {
+			dial.After = nil
+			dial.AfterClose = kc // reconnect on EOF
+			delete(killedOfKey, ki)
+		} else if g.r.chance(40) {
 			dial.MinStep = g.r.intn(150)
 		}
 		a.Ops = append(a.Ops, dial)
@@ -51,6 +56,10 @@ func genC11(seed uint64, tier string, idx int) *Plan {
 			f := g.mkFrame(ci, 0x0002, g.randSerial(), nil)
 			if g.r.chance(40) {
 				f = g.mkFrame(ci, 0x0100, g.randSerial(), g.wellFormedBody(0x0100, keys[ki].v19, keys[ki].phone))
+			} else if g.r.chance(15) {
+				// the first message is packet 1 of a sub-packaged one whose rest may never come: the terminal is
+				// connected and owns its key all the same
+				f = g.mkSubFrame(ci, 0x0200, g.randSerial(), uint16(2+g.r.intn(3)), 1, g.body(20, 0))
 			}
 			frames = append(frames, f)
 			a.Ops = append(a.Ops, Op{K: "send", Data: f.Raw, End: true, Frame: len(frames)})
@@ -60,7 +69,22 @@ func genC11(seed uint64, tier string, idx int) *Plan {
 				a.Ops = append(a.Ops, Op{K: "send", Data: h.Raw, End: true, Frame: len(frames)})
 			}
 		}
-		if g.r.chance(65) {
+		killed := false
+		if len(frames) > 0 && isHandled(frames[0].ID) && g.r.chance(10) {
+			// a corrupt frame (bad check code): the server drops the connection itself; a terminal that reconnects the
+			// moment it sees the close must find its key free
+			bad := g.mkFrame(ci, 0x0002, g.randSerial(), nil)
+			raw := append([]byte(nil), bad.Raw...)
+			raw[len(raw)-2] ^= 0x55
+			if raw[len(raw)-2] == 0x7e || raw[len(raw)-2] == 0x7d {
+				raw[len(raw)-2] ^= 0x03
+			}
+			a.Ops = append(a.Ops, Op{K: "send", Data: raw, End: true})
+			killed = true
+			killedOfKey[ki] = ci + 1
+			p.Faults = append(p.Faults, "input.corrupt_frame_server_closes")
+		}
+		if !killed && g.r.chance(65) {
 			op := Op{K: "fin"}
 			if g.r.chance(35) {
 				op.K = "rst"
@@ -253,6 +277,51 @@ func checkC11(r *Result) []Violation {
 		if h.joinedOK && h.endCause != 0 && len(h.leaves) == 0 && r.Outcome == 0 {
 			bad("leave_not_announced", fmt.Sprintf("conn %d joined as %q and its peer closed at step %d, but the leave callback never ran", ci, h.joinEv.Key, h.endCause), h.endCause)
 			return vs
+		}
+		if h.firstHandled != 0 && h.joinEv == nil && r.Outcome == 0 {
+			// the connection's first handled message (complete or a sub-package) was delivered and the run became
+			// quiescent: the connection must have been announced - as joined or as refused. A reset may discard
+			// unread data, so only connections that were not reset are judged.
+			reset := false
+			for _, e := range r.Hist {
+				if e.C == ci && e.K == KRst {
+					reset = true
+				}
+			}
+			if !reset {
+				bad("join_not_announced", fmt.Sprintf("conn %d (key %q): its first handled message was delivered at step %d, but the connection was never announced to the join callback", ci, keyOf[ci], h.firstHandled), h.firstHandled)
+				return vs
+			}
+		}
+		if h.joinEv != nil && !h.joinedOK && strings.Contains(h.joinEv.Err, "key exist") {
+			// refused although every earlier owner of the key had already been closed by the server when this
+			// connection was opened: to the terminal that connection had ended, so its key must be free
+			dials := map[int]int{}
+			for _, e := range r.Hist {
+				if e.K == KDial {
+					dials[e.C] = e.Step
+				}
+			}
+			dial := dials[ci]
+			stale := dial > 0
+			owners := 0
+			for cj, o := range hs {
+				if cj == ci || keyOf[cj] != keyOf[ci] || dials[cj] == 0 || dials[cj] > h.joinEv.Step {
+					continue // another key, or not opened before the refusal
+				}
+				// any other connection of this key that was open at some moment since this one was opened may be
+				// the legitimate owner
+				if o.srvClose == 0 || o.srvClose > dial {
+					stale = false
+				}
+				if o.joinedOK {
+					owners++
+				}
+			}
+			if stale && owners > 0 {
+				bad("key_not_free_after_close", fmt.Sprintf("conn %d (key %q) was opened at step %d, after the server had closed every earlier connection of that key, and was refused as a duplicate", ci, keyOf[ci], dial), h.joinEv.Step)
+				return vs
+			}
 		}
 		if h.joinEv != nil && !h.joinedOK && strings.Contains(h.joinEv.Err, "key exist") && h.srvClose == 0 && r.Outcome == 0 {
 			bad("refused_not_closed", fmt.Sprintf("conn %d was refused (key %q online) but the server did not close it", ci, keyOf[ci]), h.joinEv.Step)
